@@ -49,6 +49,7 @@ def eval_append(chk, typ, val, context, prefix, namespaces=None):
 
 def r16a(chk, rid='R16.a'):
     chk.rule(rid, 'specificity and namespace resolution decided by evaluation: New.append (with the helpers and class constants it uses) is evaluated on its syntax tree for every item type the selector handlers produce, in the root context, inside :not(), inside an attribute selector and inside a functional pseudo, with and without a pending namespace prefix: id -> b; class and the attribute-start item -> c; type selector, type selector inside :not() and pseudo-element -> d; nothing else counts and nothing counts outside root/:not(); namespaced names are stored as (namespaceURI, name) with the URI their prefix denotes; the element is the root-context type or universal selector; _pseudo retypes the four CSS2 one-colon pseudo-elements')
+    chk.assume("R16.a: New.append looks at an item only through its type string, its value ('[' or a name), the current context and the pending prefix: the enumerated combinations are its whole decision space")
     from sa.absint import Raised
 
     types = sorted({t for t in produced_types(chk.repo) if not t.startswith('_')} | {
